@@ -272,9 +272,15 @@ func executeTo(s Snap, v string) (err error) {
 // then the directory is replaced by the tampered one and the same executor is asked again: whatever
 // entry point is used, it reads the directory as it is now.
 func executeToThenTamper(base, n Snap, v string) (problem string) {
+	tampered := false
 	defer func() {
 		if p := recover(); p != nil {
 			problem = fmt.Sprintf("panic: %v", p)
+			if !tampered {
+				// the untouched directory cannot be executed for reasons of its own (e.g. the up and
+				// down files of another tool's layout, read as Atlas files, share a version): not judged.
+				problem = ""
+			}
 		}
 	}()
 	root := "/dev/shm"
@@ -315,6 +321,7 @@ func executeToThenTamper(base, n Snap, v string) (problem string) {
 		return "" // the untouched directory cannot be executed to v for reasons of its own: not judged
 	}
 	ex.ExecuteTo(ctx, v) // nothing pending any more
+	tampered = true
 	if e := write(n); e != nil {
 		return "harness: " + e.Error()
 	}
@@ -744,6 +751,8 @@ func specials() []Snap {
 		mk(map[string]string{" 0_lead.sql": "L;\n", "1_a.sql": "A;\n"}),
 		// a file name that holds the text separating a name from its hash in a sum line.
 		mk(map[string]string{"1_a.sql": "A;\n", "2_h1:x.sql": "B;\n"}),
+		// file names that hold a percent sign (a formatting verb, if the name were ever used as a format).
+		mk(map[string]string{"1_a.sql": "A;\n", "2_50%_s.sql": "B;\n", "3_a%sb%%.sql": "C;\n"}),
 	}
 }
 
